@@ -53,7 +53,8 @@ Section C14.
      v >= 1: the pieces self.bn is called with partition the batch IN ORDER, each has between 1 and v rows, all but
      the last have exactly ceil(n / ceil(n / v)) rows, and there are at most ceil(n / v) of them.  The row counts
      `ghost_call_sizes v n` are compared on every TabNet case with the sizes observed by a forward hook on the
-     real inner BatchNorm1d. *)
+     real inner BatchNorm1d in TRAINING mode (where the ghost batches are semantics; in evaluation mode an
+     implementation may skip the chunking, which is invisible by ghost_batch_norm_rowwise). *)
   Theorem ghost_chunks_partition_the_batch : forall {A} v (X : list A), 0 < v -> 0 < length X ->
     let k := cdiv (length X) (cdiv (length X) v) in
     let cs := torch_chunk (cdiv (length X) v) X in
